@@ -270,8 +270,8 @@ PROPS['C04'] = dict(
     category='other',
     technique='Verus contracts on the extracted encoder functions with the writer replaced by a typed emission protocol (rule R10: every write!/writeln!/write_all becomes the sequence of typed emissions it performs; the line grammar and the key/value acceptance table are preconditions of the emission functions) and, for the slider path, by an emission log (rule R7) with a loop invariant over the `,` separators',
     level_text='proved (Verus, every map value): Beatmap::encode writes the format-version line first and then the eight section headers, once each, in canonical order, with the header texts Section::try_from_line recognises; every line written by encode_general / encode_editor / encode_metadata / encode_difficulty has the shape `Key: value` (bookmarks: `Key: v,v,..`) with a key of that section and a value whose rendered class (integer / 0..3 discriminant / float / text) the parser arm of that key accepts. every record line of encode_events (background, breaks), encode_colors (combo and named colours) and encode_timing_points (both kinds of line: two leading floats written by the loop + the six-field tail of output_control_point_at) has the comma-separated field shape parse_events / Color::from_str / parse_timing_points accept (field count, event-type discriminant, numeric classes); a dropped `?` on any of these writes fails the proof; every [HitObjects] line has the field shape the parser reads for the KIND whose bits its type word carries (circle: bank info; spinner: end time `,` bank info; hold: `end:bank info` in one field; slider: five path fields, then the bank info), the bank info being `n:a:idx:vol:[file]` (encode_hit_objects + get_sample_bank). proved (Verus, control-point lists of every length): the slider path part contains exactly one `,` separator and it is the last path token (decoder grammar `type (| point)* ,`)',
-    level_note='rendered text (core::fmt) is abstracted to the class of the argument type; the acceptance table `accepts` is transcribed from the match arms of the four parse_* functions (parser side pinned per key by the c11_* Kani harnesses); the tail of add_path_data (length, node sounds, node banks: assumed to write its five fields) and the preamble of encode_timing_points that builds the groups are CUT from the units (line counts in evidence)',
-    verus=[dict(unit='c04', tier='quick'), dict(unit='kv', tier='quick'), dict(unit='rec', tier='quick'), dict(unit='hol', tier='quick')], kani=[],
+    level_note='known finding D8 (KNOWN-FINDING line, unit plen): the slider length field is the computed path distance when the decoded slider had no requested length, and that value is not bounded by the parser limit 131072. rendered text (core::fmt) is abstracted to the class of the argument type; the acceptance table `accepts` is transcribed from the match arms of the four parse_* functions (parser side pinned per key by the c11_* Kani harnesses); the tail of add_path_data (length, node sounds, node banks: assumed to write its five fields) and the preamble of encode_timing_points that builds the groups are CUT from the units (line counts in evidence)',
+    verus=[dict(unit='c04', tier='quick'), dict(unit='kv', tier='quick'), dict(unit='rec', tier='quick'), dict(unit='hol', tier='quick'), dict(unit='plen', tier='quick', finding='D8')], kani=[],
     kani_functions=[],
     explanation='see level_text',
     trusted_base=COMMON_TRUST + ['R7: writer -> emission log; write!/write_all -> emit(token)', 'R10: writer -> typed emission protocol; argument text abstracted to the class of its Rust type; `E as i32` -> as_i32(E)',
